@@ -206,7 +206,7 @@ fn case(t: &mut Tape, rec: &mut Rec<'_>) {
 pub fn property() -> Property {
     Property {
         id: "C09",
-        rule: "Schema-G reference schemas (1-2 namespaces, entity types with required/optional attributes of all types incl. nested records/sets/extension types, tags, memberOf incl. cycles and cross-namespace, enums, actions with groups and per-action contexts, \
+        rule: "Schema-G reference schemas (1-2 namespaces; a third of them with an entity type called String / Long / Bool / ipaddr or a common type called ipaddr / decimal / datetime, so that built-ins must be written __cedar::…; half of them annotated on namespaces, entity types, actions, common types and attributes; enumerated types as parent types; entity types with required/optional attributes of all types incl. nested records/sets/extension types, tags, memberOf incl. cycles and cross-namespace, enums, actions with groups and per-action contexts, \
                0-2 common types referenced at random) emitted in the JSON syntax and in the Cedar syntax with random layout (qualified vs unqualified names, Entity vs EntityOrCommon, quoted identifiers, `=`, `in X` vs `in [X]`). \
                Oracle: both emissions load to equal schemas; to_cedarschema of the JSON fragment and to_json_value of the Cedar fragment load to a schema equal to their source (translation errors are counted, not judged); policy validation, entity validation and request validation give identical verdicts under all. \
                Non-trivial = >=2 namespaces, a common type, an enum or a quoted identifier.",
